@@ -16,7 +16,8 @@ import common
 import corechecks
 
 THEOREMS = ['C03_aligned', 'C03_rows', 'C03_once', 'C03_append']
-MODULE = 'NautilusVerif.Properties.C03'
+MODULE = [('NautilusVerif.Properties.C03', None),
+          ('NautilusVerif.Properties.CoreTie', ['Core_tie_evaluateLikelihood', 'Core_tie_addBound', 'Core_tie_addSamples', 'Core_tie_posterior', 'Core_tie_poolMap'])]
 FILES = ['nautilus/sampler.py']
 INVARIANTS = ['aligned', 'nodup']
 
@@ -100,9 +101,10 @@ def mode_matrix(seed):
 
 def run(chk):
     chk.extra['source_digest'] = common.source_digest(FILES)
-    chk.prove(MODULE, THEOREMS)
+    chk.prove([(m, THEOREMS if ths is None else ths) for m, ths in MODULE], None,
+              {'NautilusVerif/Generated/CoreSrc.lean': __import__('gen_core').generate(common.REPO)[0]})
     if chk.tier == 'thorough':
-        chk.leanchecker([MODULE])
+        chk.leanchecker([m for m, _ in MODULE])
     results = corechecks.run_all(chk.tier, chk.seed)
     corechecks.report(chk, 'C03', results, INVARIANTS)
     cases, mfails = mode_matrix(chk.seed)
